@@ -54,8 +54,9 @@ def gen_image(r, J):
     t[b"ok/file"] = Node("file", 0o644, data=[("bytes", b"fine")], uid=7, gid=8, mtime=1000, xattrs={b"user.k": b"v"})
     t[b"ok/sub"] = Node("dir", 0o700)
     t[b"ok/sub/deep"] = Node("file", 0o600, data=[("rand", 3, 5000)])
-    n = r.choice([2, 4, 7])
+    n = r.choice([1, 1, 2, 4, 7])
     k = 0
+    gap_pairs = []
     for _ in range(n):
         kind = r.choice(["hostile-name", "symlink-then-dir", "symlink-then-file", "dup-files", "dup-dirs", "symlink-victim", "nested-hostile", "dev-fifo", "unsorted"])
         feats.add(kind)
@@ -72,19 +73,31 @@ def gen_image(r, J):
         elif kind in ("symlink-then-dir", "symlink-then-file"):
             # two entries with the same name: a symlink and a directory / file
             nm = b"lnk" + u
-            a, b_ = b"s" + u + b"a", b"s" + u + b"b"
-            t[a] = Node("slink", 0o777, target=r.choice(targets))
+            pre = b""
+            if r.random() < 0.4:
+                # the pair lives in a sub directory, stored with a basic or an extended directory inode
+                pre = b"g" + u
+                t[pre] = Node("dir", 0o755, xattrs={b"user.g": u} if r.random() < 0.6 else {})
+                t[pre + b"/between"] = Node("file", 0o644, data=[("bytes", b"between")])
+                feats.add("nested-pair")
+                pre += b"/"
+            a, b_ = pre + b"s" + u + b"a", pre + b"s" + u + b"b"
+            if r.random() < 0.5:
+                a, b_ = b_, a      # which of the two comes first in a sorted listing
+            gap_pairs.append((a, b_))
+            t[a] = Node("slink", 0o777, target=r.choice(targets if not pre else [b"../" + x if not x.startswith(b"/") else x for x in targets]))
             raw[a] = nm
             if kind == "symlink-then-dir":
                 t[b_] = Node("dir", 0o777)
+                # (names that do not exist outside come first: creation of an existing name fails with EEXIST)
+                t[b_ + b"/0fresh" + u] = Node("file", 0o666, data=[("bytes", b"created through symlink")])
+                t[b_ + b"/0freshdir" + u] = Node("dir", 0o777)
                 t[b_ + b"/victim"] = Node("file", 0o666, data=[("bytes", b"overwritten through symlink")])
                 t[b_ + b"/x"] = Node("file", 0o666, data=[("bytes", b"overwritten x")])
                 t[b_ + b"/created"] = Node("slink", 0o777, target=b"whatever")
             else:
                 t[b_] = Node("file", 0o666, data=[("bytes", b"written through symlink")])
             raw[b_] = nm
-            if r.random() < 0.5:
-                raw[a], raw[b_] = raw[b_], raw[a]
         elif kind == "dup-files":
             for s in (b"a", b"b"):
                 p = b"d" + u + s
@@ -110,9 +123,16 @@ def gen_image(r, J):
     shuffle = None
     if "unsorted" in feats or r.random() < 0.3:
         rr = core.rng_for(PROP, "shuffle", r.random())
+        gap = r.random() < 0.5
         def shuffle(p, ents):
             ents = list(ents)
             rr.shuffle(ents)
+            if gap:
+                # symlink first, same-named directory / file last, everything else in between
+                for a, b_ in gap_pairs:
+                    if a in ents and b_ in ents and len(ents) > 2:
+                        ents.remove(a); ents.remove(b_)
+                        ents = [a] + ents + [b_]
             return ents
     img, fmap, info = sqfsimg.build_image(t, raw_names=raw, entry_shuffle=shuffle, exportable=False)
     return img, sorted(feats), t, raw
@@ -140,7 +160,7 @@ def run_case(arg):
             nsets = 4 if tier == "quick" else 8
             for oi in range(nsets):
                 opts = OPTION_SETS[(idx + oi * 3) % len(OPTION_SETS)]
-                upath = r.choice(["/", "/", "/", "/ok", "/ok/file", "/h01", "/s01a", "/n01"])
+                upath = r.choice(["/", "/", "/", "/", "/", "/ok", "/ok/file", "/h01", "/s01a", "/n01"])
                 R = os.path.join(J, "R")
                 shutil.rmtree(R, ignore_errors=True)
                 os.makedirs(R)
